@@ -5,6 +5,8 @@ package engine
 // C06 — text written by writeq/write_canonical reads back as the same term.
 
 import (
+	"strconv"
+	"math"
 	"bytes"
 	"context"
 	"strings"
@@ -160,10 +162,24 @@ func VH_C06_atoms(vm *VM, inst int) {
 
 // VH_C06_numbers: boundary numbers (concrete text; number text is not symbolically encoded): term round trip in
 // operator contexts and number_chars/number_codes round trip.
+// c06FloatBits: doubles given by their bit patterns (not read from text, so that the value written is exactly this
+// double). They are doubles whose shortest decimal text is a hard case for a reader that rounds twice (found by a
+// native search over random doubles while building the corpus; any correctly rounding reader reads them back).
+var c06FloatBits = []uint64{12091256663452910845, 4208788186319845371, 3165249016171070463, 9693517532263589711, 15599340036116299565,
+	8853865560969916339, 13927270205285481567, 14360895281479201863, 13804159357042800325, 0x0010000000000000, 0x000FFFFFFFFFFFFF, 0x7FEFFFFFFFFFFFFF, 0x3FB999999999999A, 0x4340000000000001}
+
 func VH_C06_numbers(vm *VM, inst int) {
-	src := c06Numbers[inst]
-	note("number", src)
-	n, err := c06Read(vm, src+" .")
+	var n Term
+	var err error
+	src := ""
+	if inst >= len(c06Numbers) {
+		n = Float(math.Float64frombits(c06FloatBits[inst-len(c06Numbers)]))
+		note("number", "float with bits "+strconv.FormatUint(c06FloatBits[inst-len(c06Numbers)], 10))
+	} else {
+		src = c06Numbers[inst]
+		note("number", src)
+		n, err = c06Read(vm, src+" .")
+	}
 	if src == "1.0Inf" {
 		return // not a number literal of this system; nothing to claim
 	}
